@@ -170,6 +170,14 @@ impl QueuingExecutor {
     }
 }
 
+#[cfg(crux_verif)]
+impl QueuingExecutor {
+    /// Verification hook: number of occupied task slots (read-only).
+    pub(crate) fn verif_live_tasks(&self) -> usize {
+        self.tasks.lock().expect("Task slab poisoned").len()
+    }
+}
+
 enum RunTask {
     Missing,
     Unavailable,
